@@ -185,7 +185,7 @@ class Unparser:
 
 
 WS_ALPHABET = [' ', '\t', '\n', '\r\n', '  ', ' // c\n', ' /* c */ ', '/* é世 */', ' //ü \U0001F44D\n', '/* * / ** */',
-               '/**/', '\n\n', ' /* a\n b */ ']
+               '/**/', '\n\n', ' /* a\n b */ ', '/** banner **/', '/***/', ' /****\n * x *\n ****/ ', '/* a **/ ', '// */\n', '/*//*/', '/* /* */']
 
 
 def join(tokens, rng=None, decorate=0.0):
